@@ -237,13 +237,14 @@ Proof.
   set (post := wrs "//lint:file-ignore SA4006 This context is only used if a nested component is present." ;; wr [x0a; x0a] ;;
                wrs "import ""github.com/a-h/templ""" ;; nl ;; wrs "import templruntime ""github.com/a-h/templ/runtime""" ;; nl ;; nl ;;
                write_fnodes (f_nodes f) ;; wrs "var _ = templruntime.GeneratedTemplate").
-  set (pk := fun g => add_map (f_pkg f) (cur (w g)) (wr (e_val (f_pkg f) ++ [x0a; x0a]) g)).
+  set (pk := wpk (f_pkg f) (e_val (f_pkg f) ++ [x0a; x0a])).
   change (Inv (post (pk (pre g)))).
   assert (Gpre : good pre) by (unfold pre; gd).
   assert (Gpost : good post) by (unfold post; gd).
   assert (Ipre : inlit (w (pre g)) = false).
   { unfold pre, seq. apply inlit_after_headers. apply inlit_after_wr. }
-  apply Gpost. destruct (Gpre g Hg) as [Hw Ha]. unfold pk.
+  apply Gpost. unfold pk, wpk. destruct (zero_range (f_pkg f)); [apply good_wr, Gpre, Hg|].
+  destruct (Gpre g Hg) as [Hw Ha].
   destruct (pkg_holds (f_pkg f) (e_val (f_pkg f) ++ [x0a; x0a]) (pre g) Hw Ipre) as (A & B & C & _).
   split; [exact C|]. rewrite A, B. constructor.
   - exists (outtext (w (pre g))), [x0a; x0a]. cbn [fst snd]. split; reflexivity.
